@@ -171,6 +171,7 @@ WORKFLOW_STATE_MACHINE_DATA = {
         events.TASK_RUNNING: statuses.RUNNING,
         events.TASK_PENDING_WORKFLOW_ACTIVE: statuses.PAUSING,
         events.TASK_PENDING_WORKFLOW_DORMANT: statuses.PAUSED,
+        events.TASK_PAUSED_WORKFLOW_DORMANT: statuses.PAUSED,
         events.TASK_SUCCEEDED_WORKFLOW_ACTIVE_INCOMPLETE: statuses.RUNNING,
         events.TASK_SUCCEEDED_WORKFLOW_ACTIVE_COMPLETED: statuses.RUNNING,
         events.TASK_SUCCEEDED_WORKFLOW_DORMANT_INCOMPLETE: statuses.RUNNING,
